@@ -7,7 +7,7 @@
 From Coq Require Import List Arith Bool.
 Import ListNotations.
 From ZI Require Import Model.Ro Model.Adapter Model.Lookup Model.RegSys Model.CLookup Spec.EntryPoints
-     Proofs.EntryPoints Proofs.CLookup.
+     Proofs.EntryPoints Proofs.CLookup Gen.LookupPy Gen.LookupC Proofs.LookupGen.
 
 (* ---- relations between entry points: in EVERY cache state (valid or not), answers and the
         cache state left behind *)
@@ -249,6 +249,68 @@ Proof.
   - destruct (snd (adapter_hook ul call c p o (cname name))); discriminate.
 Qed.
 Print Assumptions C08_c_default_by_identity.
+
+(* ---- tie to the source TEXT: the kernels regenerated on every run from adapter.py
+        (harness/translate/lookup_py.py -> Gen/LookupPy.v) and from _zope_interface_coptimizations.c
+        (harness/translate/lookup_c.py -> Gen/LookupC.v) ARE the functions of the shared model
+        Model/Lookup.v resp. of Model/CLookup.v, for all inputs and all cache states *)
+Theorem C08_generated_py_eq_model : forall ul ua us call,
+  (forall c, py_changed c = cache_changed c) /\
+  (forall c req, py_subscribe c req = subscribe_required c req) /\
+  (forall c req p n, py_lookup ul c req p n = lookup ul c req p n) /\
+  (forall c r p n, py_lookup1 ul c r p n = lookup1 ul c r p n) /\
+  (forall c p o n, py_adapter_hook ul call c p o n = adapter_hook ul call c p o n) /\
+  (forall c o p n, py_queryAdapter ul call c o p n = queryAdapter ul call c o p n) /\
+  (forall c os p n, py_queryMultiAdapter ul call c os p n = queryMultiAdapter ul call c os p n) /\
+  (forall c req p, py_lookupAll ua c req p = lookupAll ua c req p) /\
+  (forall c req p, py_names ua c req p = names ua c req p) /\
+  (forall c req p, py_subscriptions us c req p = subscriptions us c req p) /\
+  (forall c os p, py_subscribers us call c os p = subscribers us call c os p).
+Proof.
+  intros. repeat match goal with |- _ /\ _ => split end; intros.
+  - apply py_changed_eq.
+  - apply py_subscribe_eq.
+  - apply py_lookup_eq.
+  - apply py_lookup1_eq.
+  - apply py_adapter_hook_eq.
+  - apply py_queryAdapter_eq.
+  - apply py_queryMultiAdapter_eq.
+  - apply py_lookupAll_eq.
+  - apply py_names_eq.
+  - apply py_subscriptions_eq.
+  - apply py_subscribers_eq.
+Qed.
+Print Assumptions C08_generated_py_eq_model.
+
+Theorem C08_generated_c_eq_model : forall ul ua us call,
+  (forall p name, gen_c_getcache p name = c_getcache p name) /\
+  (forall c req p name d, gen_c_lookup ul c req p name d = c_lookup ul c req p name d) /\
+  (forall c r p name d, gen_c_lookup1 ul c r p name d = c_lookup1 ul c r p name d) /\
+  (forall c p o name d, gen_c_adapter_hook ul call c p o name d = c_adapter_hook ul call c p o name d) /\
+  (forall c o p name d, gen_c_queryAdapter ul call c o p name d = c_queryAdapter ul call c o p name d) /\
+  (forall c req p, gen_c_lookupAll ua c req p = c_lookupAll ua c req p) /\
+  (forall c req p, gen_c_subscriptions us c req p = c_subscriptions us c req p).
+Proof.
+  intros. repeat match goal with |- _ /\ _ => split end; intros.
+  - apply gen_c_getcache_eq.
+  - apply gen_c_lookup_eq.
+  - apply gen_c_lookup1_eq.
+  - apply gen_c_adapter_hook_eq.
+  - apply gen_c_queryAdapter_eq.
+  - apply gen_c_lookupAll_eq.
+  - apply gen_c_subscriptions_eq.
+Qed.
+Print Assumptions C08_generated_c_eq_model.
+
+(* hence every theorem above that is stated for Model/Lookup.v / Model/CLookup.v holds for the
+   generated kernels; e.g. the generated C lookup1 agrees with the generated Python lookup *)
+Theorem C08_generated_c_lookup1_eq_generated_py_lookup : forall ul c r p name d,
+  gen_c_lookup1 ul c r p name d =
+  (fst (py_lookup ul c [r] p (cname name)), py_ret d (snd (py_lookup ul c [r] p (cname name)))).
+Proof.
+  intros. rewrite gen_c_lookup1_eq, py_lookup_eq, c_lookup1_eq_py, lookup1_eq_lookup. reflexivity.
+Qed.
+Print Assumptions C08_generated_c_lookup1_eq_generated_py_lookup.
 
 (* ------------------------------------------------------------------ non-vacuity witnesses *)
 Module Witness.
